@@ -216,7 +216,7 @@ fn mk_sinks(cap: usize) -> Vec<(&'static str, Box<dyn RawSink>, bool)> {
 
 fn sequences(r: &Report) {
     let sub = "write_all-sequences";
-    let depth = if r.tier == Tier::Thorough { 4 } else { 3 };
+    let depth = if r.tier == Tier::Thorough { 6 } else { 4 };
     r.space(sub, true, &format!("all sequences of <= {} write_all calls with lengths 0..=cap+1 on &mut [u8], Cursor<&mut [u8]>, Cursor<Box<[u8]>>, Cursor<[u8; N]> for every capacity 0..=4 (the state is the cursor position, so this closes the reachable state space)", depth), 2);
     let mut n = 0u64;
     let mut states = std::collections::HashSet::new();
